@@ -75,6 +75,19 @@ var replyKinds = map[string]bool{
 	"actor-not-post":           false,
 	"reply-to-prefix":          false, // parent id merely starts with this post's id
 	"reply-to-query-variant":   false, // parent id differs from this post's only in the query
+	"reply-author-alias-to-foreign":  false, // the author is named by an address on the reply's host that redirects to an actor of another host
+	"reply-author-mirror-of-foreign": false, // … or that serves a document whose id is an actor of another host
+}
+
+// rapid302ref spells a reference in one of three ways: absolute, relative, or as an {id,type} stub
+func rapid302ref(i int, abs, rel string) any {
+	switch i % 3 {
+	case 1:
+		return rel
+	case 2:
+		return map[string]any{"id": abs, "type": "Person"}
+	}
+	return abs
 }
 
 func token(i int) string { return fmt.Sprintf("TOK%dX", i) }
@@ -182,6 +195,12 @@ func (w *world) entryValue(c Case, i int, e Entry) any {
 		case "reply-foreign-author":
 			reply["inReplyTo"] = post
 			reply["attributedTo"] = w.h1("/other")
+		case "reply-author-alias-to-foreign":
+			reply["inReplyTo"] = post
+			reply["attributedTo"] = rapid302ref(i, w.h0("/alias-foreign"), w.prefix+"/alias-foreign")
+		case "reply-author-mirror-of-foreign":
+			reply["inReplyTo"] = post
+			reply["attributedTo"] = rapid302ref(i, w.h0("/mirror-foreign"), w.prefix+"/mirror-foreign")
 		case "tombstone":
 			reply = map[string]any{"type": "Tombstone", "name": token(i)}
 		case "actor-not-post":
@@ -269,6 +288,8 @@ func (w *world) install() {
 		sim.Set(1, w.prefix+p, vsim.JSON(d))
 	}
 	sim.Set(0, w.prefix+"/alias", vsim.Redirect(302, "https://%H0%"+w.prefix+"/owner"))
+	sim.Set(0, w.prefix+"/alias-foreign", vsim.Redirect(302, "https://%H1%"+w.prefix+"/other"))
+	sim.Set(0, w.prefix+"/mirror-foreign", vsim.JSON(w.docs1["/other"]))
 }
 
 func plain(s string) string {
@@ -353,12 +374,15 @@ func check(c Case) vrep.Result {
 			classes = append(classes, "may:relative-actor-without-base")
 			continue
 		}
-		if e.Kind == "reply-same-host-author" && e.Transport == "embedded-noid" {
+		if (e.Kind == "reply-same-host-author" || e.Kind == "reply-author-alias-to-foreign" || e.Kind == "reply-author-mirror-of-foreign") && e.Transport == "embedded-noid" {
 			// a post without an id has no host of its own; the statement does not say whether it may carry an author: either outcome
 			classes = append(classes, "may:id-less-post-with-author")
 			continue
 		}
+		viaOwnHost := e.Kind == "reply-author-alias-to-foreign" || e.Kind == "reply-author-mirror-of-foreign"
 		switch {
+		case viaOwnHost:
+			// error item, or the post without that author: decided by the author clause below
 		case table[e.Kind] && !shownGenuine:
 			return vrep.Result{Classes: classes, Err: fmt.Errorf("entry %d (%s via %s) belongs to the %s but is shown as %T %q", i, e.Kind, e.Transport, c.Listing, it, name)}
 		case !table[e.Kind] && !isFailure:
